@@ -14,9 +14,9 @@ from ..report import Violation
 from ..ref import matchsem as ms
 from . import c12
 
-INITIAL = ['*', 'wl_pointer', '! .motion', '!']
+INITIAL = ['*', 'wl_pointer', '! .motion', '!', 'wl_surface.destroyed']
 COMMANDS = ['filter wl_pointer', 'filter ! .motion', 'filter *', 'connection A', 'connection B', 'connection all',
-            'connection zz', 'filter [', 'filter B:']
+            'connection zz', 'filter [', 'filter B:', 'list B: wl_surface']
 CMD_REF = {'filter wl_pointer': ('wl_pointer', ['wl_pointer'], []), 'filter ! .motion': ('! .motion', [], ['.motion']),
            'filter *': ('*', ['*'], []), 'filter B:': ('B:', ['B:'], [])}
 T = 9000000000
@@ -36,7 +36,7 @@ def prelude(conn):
     ]
 
 
-MSG_KINDS = {'1': ['motion', 'button', 'commit', 'create', 'destroy', 'orphan', 'appid'], '2': ['motion', 'commit', 'orphan']}
+MSG_KINDS = {'1': ['motion', 'button', 'commit', 'create', 'destroy', 'orphan', 'appid', 'cbnew', 'cbdel'], '2': ['motion', 'commit', 'orphan']}
 
 
 def message_for(conn, kind, created):
@@ -51,8 +51,14 @@ def message_for(conn, kind, created):
         created.append(20)
         return _u(conn, True, 'wl_compositor', 3, 'create_surface', [['new', 'wl_surface', 20]])
     if kind == 'destroy':
-        created.pop()
+        created.remove(20)
         return _u(conn, False, 'wl_display', 1, 'delete_id', [['int', 20]])
+    if kind == 'cbnew':       # an object of another type that is destroyed by the same kind of message
+        created.append(21)
+        return _u(conn, True, 'wl_display', 1, 'sync', [['new', 'wl_callback', 21]])
+    if kind == 'cbdel':
+        created.remove(21)
+        return _u(conn, False, 'wl_display', 1, 'delete_id', [['int', 21]])
     if kind == 'appid':       # connection A announces the app id "b": `connection B` must still mean the connection named B
         return _u(conn, True, 'zz_q', 78, 'set_app_id', [['str', 'b']])
     if kind == 'orphan':      # a message on an id the log never showed being created (stays unresolved)
@@ -61,18 +67,18 @@ def message_for(conn, kind, created):
 
 
 def enabled_events(hist):
-    created = {'1': 0, '2': 0}
+    created = {'1': set(), '2': set()}
     for e in hist:
-        if e[0] == 'm' and e[2] == 'create':
-            created[e[1]] += 1
-        if e[0] == 'm' and e[2] == 'destroy':
-            created[e[1]] -= 1
+        if e[0] == 'm' and e[2] in ('create', 'cbnew'):
+            created[e[1]].add(e[2])
+        if e[0] == 'm' and e[2] in ('destroy', 'cbdel'):
+            created[e[1]].discard({'destroy': 'create', 'cbdel': 'cbnew'}[e[2]])
     evs = []
     for conn in ('1', '2'):
         for k in MSG_KINDS[conn]:
-            if k == 'create' and created[conn]:
+            if k in ('create', 'cbnew') and k in created[conn]:
                 continue
-            if k == 'destroy' and not created[conn]:
+            if k in ('destroy', 'cbdel') and {'destroy': 'create', 'cbdel': 'cbnew'}[k] not in created[conn]:
                 continue
             evs.append(['m', conn, k])
     evs += [['c', c] for c in COMMANDS]
@@ -126,7 +132,7 @@ def run_hist(init, hist, check_from=0):
                 out, err = s.cmd(e[1])
                 if e[1] in ('connection zz', 'filter ['):
                     err = [] if err else ['(no error line for a bad command)']
-                if checked and (err or any(outparse.classify(x)[0] == 'message' for x in out)):
+                if checked and (err or (not e[1].startswith('list') and any(outparse.classify(x)[0] == 'message' for x in out))):
                     V.append(Violation('live.command_output', case, {'step': n, 'command': e[1], 'out': out, 'err': err}))
                 # merging is on the reference state, so the implementation's observable state must equal it after
                 # every command: which connection is marked as selected in the listing
@@ -159,16 +165,18 @@ def run_hist(init, hist, check_from=0):
                 got_counts[cl['name']] = cl['messages']
         if got_counts != want_counts:
             V.append(Violation('recorded.counts', case, {'expected': want_counts, 'observed': got_counts}))
-        key = [f_out, selection, sorted((c, len(v)) for c, v in created.items())]
+        key = [f_out, selection, sorted((c, sorted(v)) for c, v in created.items())]
     except Exception:
         V.append(sut.exc_violation(case))
     return V, key
 
 
-def make_expand(init):
+def make_expand(init, only=None):
     def expand(hist):
         out = []
         for ev in enabled_events(hist):
+            if only is not None and ev not in only:
+                continue
             h2 = list(hist) + [ev]
             V, key = run_hist(init, h2, check_from=len(hist))
             ncmd = sum(1 for e in h2 if e[0] == 'c')
@@ -184,11 +192,18 @@ def run(run, tier, seed):
     d_un, d_me = (3, 5) if tier == 'quick' else (4, 8)
     for init in INITIAL:
         if tier == 'quick' and init in ('wl_pointer', '!'):
-            continue      # quick: the unmerged search from two of the four initial filters; the merged one from all
+            continue      # quick: three of the five initial filters
         res = explore.bfs(make_expand(init), d_un, seed=seed, merge=False, bound={'initial_filter': init, 'depth': d_un, 'merged': False})
         run.add_part('unmerged:' + init, res)
         res = explore.bfs(make_expand(init), d_me, seed=seed, merge=True, bound={'initial_filter': init, 'depth': d_me, 'merged': True})
         run.add_part('merged:' + init, res)
+    # creations and destructions of two object types under a `.destroyed` filter, every order, no merging (what one
+    # destruction taught the matcher must not decide the next)
+    lifecycle = [['m', '1', k] for k in ('create', 'destroy', 'cbnew', 'cbdel', 'commit')]
+    d_life = 5 if tier == 'quick' else 7
+    res = explore.bfs(make_expand('wl_surface.destroyed', only=lifecycle), d_life, seed=seed, merge=False,
+                      bound={'initial_filter': 'wl_surface.destroyed', 'depth': d_life, 'merged': False, 'events': 'lifecycle only'})
+    run.add_part('unmerged_lifecycle:wl_surface.destroyed', res)
     # one long session: recording does not forget (a bounded history would)
     from . import c11
     n_long = 70000 if tier == 'quick' else 300000
